@@ -79,7 +79,9 @@ func mirrorE2EMain(args mon.Args) {
 			}
 		}()
 		bindV4 := pi%2 == 1
-		udpSize := []int{1500, 512}[(pi/2)%2]
+		// the two protocols get their own maximum datagram size; in three of four processes they differ
+		sizes := [][2]int{{1500, 1500}, {512, 2048}, {2048, 512}, {1500, 9000}}[pi%4]
+		udpSizeOf := map[string]int{"ipfix": sizes[0], "sflow": sizes[1]}
 		ports := map[string]int{"ipfix": reservedPort(), "sflow": reservedPort()}
 		statsPort := reservedPort()
 		conf := map[string]string{
@@ -88,7 +90,7 @@ func mirrorE2EMain(args mon.Args) {
 			"pid-file": filepath.Join(pdir, "vflow.pid"), "ipfix-tpl-cache-file": filepath.Join(pdir, "i.tpl"),
 			"netflow5-enabled": "false", "netflow9-enabled": "false",
 			"ipfix-port": strconv.Itoa(ports["ipfix"]), "sflow-port": strconv.Itoa(ports["sflow"]),
-			"ipfix-workers": "4", "sflow-workers": "4", "ipfix-udp-size": strconv.Itoa(udpSize), "sflow-udp-size": strconv.Itoa(udpSize),
+			"ipfix-workers": "4", "sflow-workers": "4", "ipfix-udp-size": strconv.Itoa(udpSizeOf["ipfix"]), "sflow-udp-size": strconv.Itoa(udpSizeOf["sflow"]),
 			"ipfix-mirror-addr": "127.0.0.1", "ipfix-mirror-port": strconv.Itoa(mport),
 			"sflow-mirror-addr": "127.0.0.1", "sflow-mirror-port": strconv.Itoa(mport),
 		}
@@ -96,7 +98,7 @@ func mirrorE2EMain(args mon.Args) {
 			conf["ipfix-addr"], conf["sflow-addr"] = "127.0.0.1", "127.0.0.1"
 		}
 		writeConf(pdir, conf, sink.port)
-		desc := fmt.Sprintf("collector #%d sockets bound to %s max-udp-size=%d", pi, map[bool]string{true: "127.0.0.1 (exporters in 4-byte form)", false: "the wildcard (16-byte form)"}[bindV4], udpSize)
+		desc := fmt.Sprintf("collector #%d sockets bound to %s ipfix-udp-size=%d sflow-udp-size=%d", pi, map[bool]string{true: "127.0.0.1 (exporters in 4-byte form)", false: "the wildcard (16-byte form)"}[bindV4], udpSizeOf["ipfix"], udpSizeOf["sflow"])
 		col, err := startCollector(bin, pdir, nil, nil, nil)
 		if err != nil {
 			run.HarnessError(err.Error())
@@ -134,13 +136,28 @@ func mirrorE2EMain(args mon.Args) {
 		byID := map[uint32]*sentD{}
 		id := uint32(0)
 		// every length class incl. the band next to the maximum; a quarter decodable-looking prefixes
-		lengths := []int{0, 1, 2, 3, 4, 5, 7, 8, 15, 16, 27, 28, 29, 255, 256, 257, udpSize - 29, udpSize - 28, udpSize - 27, udpSize - 9, udpSize - 8, udpSize - 1, udpSize}
-		for k := 0; k < run.Pick(400, 3000); k++ {
-			lengths = append(lengths, g.Intn(udpSize+1))
+		lengthsOf := map[string][]int{}
+		for _, proto := range []string{"ipfix", "sflow"} {
+			udpSize, other := udpSizeOf[proto], udpSizeOf[map[string]string{"ipfix": "sflow", "sflow": "ipfix"}[proto]]
+			l := []int{0, 1, 2, 3, 4, 5, 7, 8, 15, 16, 27, 28, 29, 255, 256, 257, udpSize - 29, udpSize - 28, udpSize - 27, udpSize - 9, udpSize - 8, udpSize - 1, udpSize}
+			for _, n := range []int{other - 1, other, other + 1, other + 19, other + 20, other + 21, other + 27, other + 28, other + 29, other + 47, other + 48, other + 49} {
+				if n <= udpSize { // around the OTHER protocol's maximum, where a mixed-up setting would bite
+					l = append(l, n)
+				}
+			}
+			for k := 0; k < run.Pick(400, 3000); k++ {
+				l = append(l, g.Intn(udpSize+1))
+			}
+			lengthsOf[proto] = l
 		}
 		perProto := map[string]int{}
-		for _, n := range lengths {
+		pendingOctets := map[string]int{}
+		for li := 0; li < len(lengthsOf["ipfix"]) || li < len(lengthsOf["sflow"]); li++ {
 			for _, proto := range []string{"ipfix", "sflow"} {
+				if li >= len(lengthsOf[proto]) {
+					continue
+				}
+				n := lengthsOf[proto][li]
 				id++
 				p := g.Bytes(n)
 				if n >= 4 {
@@ -150,7 +167,9 @@ func mirrorE2EMain(args mon.Args) {
 				all = append(all, sentD{id, src, proto, p})
 				snd.send(src, ports[proto], p)
 				perProto[proto]++
-				if perProto[proto]%100 == 0 {
+				pendingOctets[proto] += n
+				if perProto[proto]%100 == 0 || pendingOctets[proto] > 40000 { // stay well inside the default socket buffers
+					pendingOctets[proto] = 0
 					for w := 0; w < 300; w++ {
 						fl, err := getFlow("127.0.0.1", statsPort)
 						if err == nil && int(fl[map[string]string{"ipfix": "IPFIX", "sflow": "SFlow"}[proto]]["UDPCount"]) >= perProto[proto] {
